@@ -3,6 +3,7 @@
 package main
 
 import (
+	"encoding/json"
 	"flag"
 	"fmt"
 	"os"
@@ -10,6 +11,7 @@ import (
 	"strconv"
 	"strings"
 
+	"ivgsa/internal/canon"
 	"ivgsa/internal/load"
 	"ivgsa/internal/report"
 	"ivgsa/internal/rules"
@@ -27,6 +29,17 @@ func main() {
 		os.Exit(dump(os.Args[2:]))
 	case "explain":
 		os.Exit(explain(os.Args[2:]))
+	case "snapshot":
+		// the names the rules are written against, taken from the tree under analysis (run on the pinned tree)
+		os.Setenv("IVGSA_NO_CANON", "1")
+		prog, err := load.Load(load.RepoDir(), "amd64")
+		if err != nil {
+			fmt.Fprintln(os.Stderr, err)
+			os.Exit(2)
+		}
+		snap := canon.Take(prog.RawPkgs, prog.Rel)
+		b, _ := json.MarshalIndent(snap, "", " ")
+		os.Stdout.Write(append(b, '\n'))
 	case "list":
 		for _, p := range rules.Properties() {
 			fmt.Println(p)
@@ -62,6 +75,9 @@ func check(args []string) int {
 	run.Count("packages", len(prog.Pkgs))
 	run.Count("functions", prog.NumFuncs)
 	run.Note("analysed %s (GOOS=linux GOARCH=%s), %d packages, %d functions with bodies", prog.Dir, prog.Arch, len(prog.Pkgs), prog.NumFuncs)
+	for _, r := range prog.Renames {
+		run.Note("renamed identifier: %s", r.String())
+	}
 	ctx := &rules.Ctx{P: prog, R: run, Tier: *tier}
 	// A rule function that panics on an idiom it does not understand must not take the verdict down with it: the
 	// panic becomes an undecided obligation (the check fails, naming the rule function), the other rules still run.
